@@ -499,7 +499,7 @@ func Extract(hi, lo int, a *Term) *Term {
 			return Extract(hi, lo, a.args[0])
 		}
 	case "ite":
-		if a.args[1].IsConst() || a.args[2].IsConst() {
+		if a.args[1].IsConst() && a.args[2].IsConst() {
 			return Ite(a.args[0], Extract(hi, lo, a.args[1]), Extract(hi, lo, a.args[2]))
 		}
 	case "bvlshr":
@@ -739,4 +739,87 @@ func upperBound(t *Term) *big.Int {
 		}
 	}
 	return full
+}
+
+// varsOf lists the variables occurring in t.
+func varsOf(t *Term) []*Term {
+	seen := map[int]bool{}
+	var out []*Term
+	var walk func(*Term)
+	walk = func(x *Term) {
+		if seen[x.id] {
+			return
+		}
+		seen[x.id] = true
+		if x.op == "var" {
+			out = append(out, x)
+		}
+		for _, a := range x.args {
+			walk(a)
+		}
+	}
+	walk(t)
+	return out
+}
+
+// evalTerm evaluates a (UF-free, FP-free) bit-vector/boolean term under a model; nil if it cannot.
+func evalTerm(t *Term, m map[string]*big.Int) *big.Int {
+	switch t.op {
+	case "const":
+		return t.val
+	case "var":
+		if v, ok := m[t.name]; ok {
+			return v
+		}
+		return big.NewInt(0)
+	}
+	args := make([]*Term, len(t.args))
+	for i, a := range t.args {
+		v := evalTerm(a, m)
+		if v == nil {
+			return nil
+		}
+		if a.sort.K == SBool {
+			args[i] = ConstBool(v.Sign() != 0)
+		} else if a.sort.K == SBV {
+			args[i] = ConstBV(v, a.sort.W)
+		} else {
+			return nil
+		}
+	}
+	var r *Term
+	switch t.op {
+	case "not":
+		r = Not(args[0])
+	case "and":
+		r = And(args[0], args[1])
+	case "or":
+		r = Or(args[0], args[1])
+	case "ite":
+		r = Ite(args[0], args[1], args[2])
+	case "=":
+		r = Eq(args[0], args[1])
+	case "extract":
+		r = Extract(t.p1, t.p2, args[0])
+	case "concat":
+		r = Concat(args[0], args[1])
+	case "zero_extend":
+		r = ZeroExt(args[0], t.sort.W)
+	case "sign_extend":
+		r = SignExt(args[0], t.sort.W)
+	case "bvnot":
+		r = BVNot(args[0])
+	case "bvneg":
+		r = BVNeg(args[0])
+	case "bvult", "bvule", "bvugt", "bvuge", "bvslt", "bvsle", "bvsgt", "bvsge":
+		r = bvcmp(t.op, args[0], args[1])
+	default:
+		if strings.HasPrefix(t.op, "bv") && len(args) == 2 {
+			r = bvbin(t.op, args[0], args[1])
+		}
+	}
+	if r == nil || !r.IsConst() {
+		return nil
+	}
+	return r.val
 }
